@@ -70,6 +70,28 @@ def zone_doc(rng):
     return d
 
 
+def offset_family():
+    """texts whose zone offsets in the raw input differ from the offsets in the normalised text: decomposed (NFD) sequences, which
+    NFC shortens, in front of a zone whose LAST characters are the delicate ones (tabs).  Built directly as text: the oracle looks
+    at the zones only (what NFC does to text outside zones is F16's subject, not C05's).
+    -> [(text, [zone contents in order])]"""
+    out = []
+    for k in (1, 2, 3, 5, 8, 13, 21):
+        for pre in ("e\u0301", "A\u030a\u0301", "\u1100\u1161"):       # 2->1, 3->1(2), Hangul L+V -> 1
+            for last in ("util.c\t48", "\t", "x\t\t", "a\tb\tc\t", "\tend"):
+                for nest in (0, 2):
+                    ind = " " * nest
+                    head = f'===D===\nNAME::"{pre * k}"\n' + ("B:\n" if nest else "")
+                    z1 = f"{ind}K::\n{ind}```\nfile\tlines\n{last}\n{ind}```\n"
+                    z2 = f"{ind}L::\n{ind}````tsv\n{last}\n{ind}````\n"
+                    out.append((head + z1 + f'{ind}M::"{pre}"\n' + z2 + "===END===\n", ["file\tlines\n" + last, last]))
+    return out
+
+
+def eval_offset_chunk(items):
+    return [{"text": t, "want": w, "r": TC.eval_text(t)} for t, w in items]
+
+
 def eval_chunk(args):
     out = []
     for (seed, idx) in args:
@@ -200,6 +222,31 @@ def run(ctx: vlib.Ctx):
         else:
             zm = TC.zones_of(m["doc"]) if "doc" in m else m.get("err")
             zi = TC.zones_of(pw["doc"]) if "doc" in pw else pw.get("err")
+            if zm != zi:
+                X.corr(ctx, {"text": text}, "literal zones (path, content, tag, fence) / exception", zm, zi)
+    # zones whose offsets shift under normalisation of the text in front of them
+    fam = offset_family()
+    fam_res = [r for ch in vlib.pmap(eval_offset_chunk, [fam[i:i + 30] for i in range(0, len(fam), 30)], chunksize=1) for r in ch]
+    for r in fam_res:
+        ctx.case({"text": r["text"]}, nontrivial=True)
+        ctx.count("offset_family")
+        pw = r["r"]["pw"]
+        why = None
+        if "err" in pw:
+            why, cls = f"reader rejects a document whose zones hold tabs (decomposed text in front of the zone): {pw['err']}", "offset-rejected"
+        elif [z[1] for z in TC.zones_of(pw["doc"])] != r["want"]:
+            why, cls = f"zones read differ: {TC.short([z[1] for z in TC.zones_of(pw['doc'])], 200)} wanted {TC.short(r['want'], 200)}", "offset-zones-read"
+        elif "strict_doc" not in r["r"]:
+            why, cls = f"canonical text not re-readable: {r['r'].get('strict_err') or r['r'].get('c1_err')}", "offset-canonical-unreadable"
+        elif [z[1] for z in TC.zones_of(r["r"]["strict_doc"])] != r["want"]:
+            why, cls = "zones differ after canonicalisation", "offset-zones-canonical"
+        if why:
+            X.classify(ctx, findings, CLASSES, {"text": r["text"], "zone_contents": r["want"]}, why, cls)
+    fam_texts = [r["text"] for r in fam_res]
+    for text, r, m in zip(fam_texts, fam_res, X.lean_parse_warn(proj, fam_texts)):
+        if not T.model_unsupported(m):
+            zm = TC.zones_of(m["doc"]) if "doc" in m else m.get("err")
+            zi = TC.zones_of(r["r"]["pw"]["doc"]) if "doc" in r["r"]["pw"] else r["r"]["pw"].get("err")
             if zm != zi:
                 X.corr(ctx, {"text": text}, "literal zones (path, content, tag, fence) / exception", zm, zi)
     tool_pipelines(ctx, findings, res[: ctx.budget(120, 1200)])
